@@ -1,6 +1,6 @@
 (* Properties_C06.v — C06: nodes checkpoints track the consumer position under every thread interleaving.
    Model: ConcModel.v; proofs: ConcInv.v. *)
-From PD Require Import Base ConcModel ConcObs ConcInv.
+From PD Require Import Base ConcModel ConcObs ConcInv ConcLive ConcOwner ConcSnap.
 Open Scope nat_scope.
 
 (* FULL statement (target): in every reachable state of every schedule in which no join() of an old read thread timed
@@ -13,7 +13,21 @@ Definition C06_tracks_consumer_statement : Prop :=
     cur (run c sched (init script)) = Some g ->
     g_snap g + g_steps g = g_base g + g_recv g.
 
-(* proved so far: the snapshot store's hand-off discipline, for every store content *)
+(* PROVED for the Prefetcher (_SingleThreadedMapper), any prefetch_factor, any snapshot_frequency, any source (failing or
+   not), any consumer script of next / state_dict / reset / reset(loaded state) / shutdown: along EVERY schedule in which
+   the join() on the old read thread never times out while it is alive, in EVERY reachable state, what state_dict() of the
+   current iterator would return satisfies snapshot + steps_since_snapshot = start position + items received — exactly
+   the consumer's position, never the reader's — and the snapshot is never ahead of the consumer.  (Invariant PFinv in
+   ConcSnap.v: reader position, store contents position = base + version, consecutive queue indices, what the consumer
+   holds; lifted over resets with ConcOwner's single-ownership invariant.)  ParallelMapper(in_order) remains a target. *)
+Theorem C06_prefetcher_tracks_consumer : forall c, k_pm c = false -> forall script sched,
+  jt_free c (init script) sched = true ->
+  forall g, cur (run c sched (init script)) = Some g ->
+  g_snap g + g_steps g = g_base g + g_recv g /\ g_snap g <= g_base g + g_recv g.
+Proof. exact prefetcher_tracks_consumer. Qed.
+Print Assumptions C06_prefetcher_tracks_consumer.
+
+(* the snapshot store's hand-off discipline, for every store content *)
 (* (1) a snapshot is adopted only for exactly the received item's version *)
 Theorem C06_pop_version_exact : forall v l p, fst (pop_version v l) = Some p -> In (v, p) l.
 Proof. exact pop_version_exact. Qed.
